@@ -1,0 +1,9 @@
+//go:build verif
+
+package bft
+
+// Verification hooks (build tag verif): thin accessors to the unexported epoch arithmetic. No logic.
+
+func VerifGetCheckPoint(blockNum uint32) uint32 { return getCheckPoint(blockNum) }
+func VerifIsCheckPoint(blockNum uint32) bool    { return isCheckPoint(blockNum) }
+func VerifGetStorePoint(blockNum uint32) uint32 { return getStorePoint(blockNum) }
